@@ -36,6 +36,12 @@ def carve_rules(F, ok, rep, P):
     if b is None:
         return
     # ---- carve
+    # the rewritten header must occupy exactly the bytes reserved at creation: the carve moves bytes from PADDING to the
+    # new SEEKTABLE (header included) and nothing else - no block disappears (its 4-byte header would be unaccounted for)
+    rem = [t for c in [b] + F.closures_of(b) for _, t in c.calls() if re.search(r"metadata::BlockList::(remove|remove_all|retain|clear|drain|update)$|Vec::<T, A>::(remove|retain|clear|truncate|drain|pop)$", strip_generics(callee_name(t)) if not callee_name(t).startswith("<") else callee_name(t))
+           and "Block" in " ".join(t["aty"][:1])]
+    rep.check(P + ".carve", "finalize removes no metadata block (the rewritten header keeps the reserved size)", not rem, loc_of(b), "",
+              "finalize_inner removes blocks (%s): the rewritten metadata is shorter than the area reserved for it and stale bytes sit in front of the first frame" % [callee_name(t) for t in rem][:2])
     ins = call_blocks(b, r"metadata::BlockList::insert$")
     for bi, t in ins:
         f = ok.path_facts(b).get(bi, TOP)
@@ -209,7 +215,9 @@ def run(ctx, rep):
             okb = any(k == "agg" and x["var"] == "Some" and place_fields(root_place(eb, x["ops"][0]))[-2:] == ["writer", "count"] for k, x in o1)
             rep.check("C09.units", "seek point byte_offset = bytes written since the first frame (writer.count)", okb, eb.loc(s["sp"]))
             o2 = _deep(eb, ops[ef.index("frame_samples")])
-            rep.check("C09.units", "seek point frame_samples = PCM frames of this frame", any(k == "call" and callee_name(x).endswith("Frame::pcm_frames") for k, x in o2), eb.loc(s["sp"]))
+            sl2 = backward_slice(eb, ops[ef.index("frame_samples")])
+            conv = any(callee_name(c).endswith("Frame::pcm_frames") for c in sl2["calls"]) and not ({o.replace("WithOverflow", "") for o in sl2["ops"]} - {"Eq", "Ne", "Lt", "Le", "Gt", "Ge"})
+            rep.check("C09.units", "seek point frame_samples = PCM frames of this frame", any(k == "call" and callee_name(x).endswith("Frame::pcm_frames") for k, x in o2) or conv, eb.loc(s["sp"]))
         rep.floor("C09.units", "seek points taken in Encoder::encode", len(aggs), 1)
         for aj, s in adds:
             # samples_written += pcm_frames
